@@ -533,6 +533,23 @@ def check(res, tier, seed):
                 monitor_hits += 1
                 res.violation("cancel:" + re.sub(r"\d+", "N", vs[0])[:50], "implementation violates C04: %s" % vs[0],
                               dict(kind="sys", family="cancel", config=r["config"], seed=r["seed"], all=vs[:8], calls=r.get("calls")))
+    if pid == "C04":
+        # real scheduler: responses released by the transport while the calls they answer are being cancelled
+        rrecs, rrc, rout = C.run_job(binary, wd, "racestress", dict(family="sys", seed=seed, n=1, cases=["racestress"], params=dict(rounds=(400 if tier == "quick" else 6000))), timeout=600)
+        fam["racestress(real scheduler)"] = len(rrecs)
+        if rrc != 0 or not rrecs:
+            monitor_hits += 1
+            line = next((l for l in rout.splitlines() if l.startswith("panic:") or "fatal error" in l), (rout.strip().splitlines() or ["?"])[-1])
+            res.violation("racestress-crash", "implementation violates C04: the process died while responses arrived for calls that were being cancelled (16 calls sharing one context, responses released by the transport at the moment of the cancellation): %s" % line[:300],
+                          dict(kind="sys", family="racestress", output=rout[-3000:]))
+        for r in rrecs:
+            vs = list(r.get("notes") or [])
+            for c in r.get("calls") or []:
+                if c["m"] == "Probe" and (c["err"] != "" or c["ret"] != "42"):
+                    vs.append("the link is not healthy %s: a later call returned (%s, %r)" % (c.get("extra"), c["ret"], c["err"]))
+            if vs:
+                monitor_hits += 1
+                res.violation("racestress", "implementation violates C04: %s" % vs[0], dict(kind="sys", family="racestress", seed=r["seed"], all=vs[:6]))
     if pid == "C12":
         from . import sys_props
         hrecs2, hrc2, hout2 = C.run_job(binary, wd, "hubclosures", dict(family="sys", seed=seed, n=(12 if tier == "quick" else 200), cases=["hub"]), timeout=400)
